@@ -81,7 +81,7 @@ def compress_case(ctx, idx, rng):
     ends = (psi.qD[0].copy(), psi.qD[-1].copy())
     snap = {'qd': psi.qd.copy(), 'qD': [q.copy() for q in psi.qD], 'A': [a.copy() for a in psi.A], 'tol': tol, 'mode': mode}
     ctx.case(('compress', kind, f'L{min(L, 4)}', mode, 'tol0' if tol == 0 else tol_kind, struct), sample={'qD': snap['qD'], 'tol': tol, 'mode': mode, 'L': L, 'd': d}, info=snap)
-    res = psi.compress(tol, mode)
+    res = psi.compress(tol, mode) if not (mode == 'left' and idx % 3 == 0) else psi.compress(tol)          # default mode is 'left'
     detail = snap
     if not ctx.ok('compress.returns-pair', isinstance(res, tuple) and len(res) == 2, f'returned {res!r}', detail):
         return
